@@ -18,9 +18,10 @@ def run(ctx):
     # (12, 4, 5) family needed > 40 min on a loaded machine
     mcs = [("MC_Geometry", "MC_Geometry", "partition, size, subset, change theorems T1-T9, T13")] if q else \
           [("MC_Geometry", "MC_Geometry_thorough", "theorems T1-T9, T13 (N<=12, R<=3)"), ("MC_Geometry", "MC_Geometry_thorough2", "theorems T1-T9, T13 (N<=8, R<=4)")]
-    mcs.append(("MC_GeometryOrder", "MC_GeometryOrder" if q else "MC_GeometryOrder_thorough", "equality/containment theorems T10-T12, comparison operators T14"))
-    pool = cf.ThreadPoolExecutor(4)
-    futs = [(m, cfg, what, pool.submit(lib.tlc, m, cfg=cfg, workers=4 if q else 8, timeout=2400, heap="4g" if q else "5g", tag=cfg)) for (m, cfg, what) in mcs]
+    for cfg in (["MC_GeometryOrder"] if q else ["MC_GeometryOrder_thorough", "MC_GeometryOrder_thorough2"]):
+        mcs.append(("MC_GeometryOrder", cfg, "equality/containment theorems T10-T12, comparison operators T14"))
+    pool = cf.ThreadPoolExecutor(6)
+    futs = [(m, cfg, what, pool.submit(lib.tlc, m, cfg=cfg, workers=4, timeout=3000, heap="4g" if q else "5g", tag=cfg)) for (m, cfg, what) in mcs]
     vac = []
     if not q:
         # non-vacuity of T10-T12: the "never seen" invariants must be violated (a witness pair exists)
